@@ -2,7 +2,7 @@
    ExtrOcamlBasic and ExtrOcamlZBigInt (positive/Z/N -> zarith big integers), nothing of ours. *)
 Require Coq.extraction.Extraction.
 Require Import ExtrOcamlBasic ExtrOcamlZBigInt.
-From SedV Require Import Clamp FitCore Flags Fit3 Xnum Keep Keep0 SrcAscii FilterOut FitModel Grid FTable TableProofs StreamM Frame Reader ConvolveM ConvDirM MonoM SedIOM Misc ApertureM PlotM Fmt FitMask ReadM Additional ExtSnap UnitM LinregOrtho RadiusM ResolvedM.
+From SedV Require Import Clamp FitCore Flags Fit3 Xnum Keep Keep0 SrcAscii FilterOut FitModel Grid FTable TableProofs StreamM Frame Reader ConvolveM ConvDirM MonoM SedIOM Misc ApertureM PlotM Fmt FitMask ReadM Additional ExtSnap UnitM LinregOrtho RadiusM ResolvedM GridGuard.
 Extraction Language OCaml.
 Extraction "sedmodel.ml" Keep.nkeep Keep0.nkeepN SrcAscii.from_ascii_m FilterOut.filter_output_m
   FitModel.get_av_m FitModel.interp_clamp_m FitModel.rank_m FitModel.fit2_all FitModel.fit2_det FitModel.fit3_m11 FitModel.fit3_all FitModel.fit2_pkg FitModel.fit3_pkg Grid.ndist Grid.gridlog_m
@@ -17,5 +17,5 @@ Extraction "sedmodel.ml" Keep.nkeep Keep0.nkeepN SrcAscii.from_ascii_m FilterOut
   ApertureM.sed_interp_var_m
   PlotM.curve_list PlotM.curve_val
   Fmt.fmt_e Fmt.fmt_f FitMask.fit3_pkg_masked ReadM.read_files Additional.attach_col ExtSnap.get_av_snap_m UnitM.convert_u LinregOrtho.linreg_ortho_m
-  RadiusM.radius_sigma_m RadiusM.radius_cumul_m ResolvedM.resolved_pkg
+  RadiusM.radius_sigma_m RadiusM.radius_cumul_m ResolvedM.resolved_pkg GridGuard.ndist_g
   Flags.get_log_fluxes_m FitCore.linreg_m FitCore.optscale_sc_m Fit3.optscale_av_m Flags.chi2_m.
